@@ -170,8 +170,17 @@ func (g *Gen) genMisuse(t *rapid.T) *Op {
 		}
 		if len(l) > 0 && len(dead) > 0 && m.OpenQ < 60 {
 			fi := rapid.SampledFrom(l).Draw(t, "filter")
-			c := rapid.SampledFrom(g.qrelComps(m.Filters[fi])).Draw(t, "relComp")
-			op := &Op{K: "queryDeadTarget", F: fi, QRels: []RelSpec{{C: c, T: rapid.SampledFrom(dead).Draw(t, "deadTarget"), S: rapid.IntRange(0, 2).Draw(t, "relStyle")}}, Mode: rapid.IntRange(0, 1).Draw(t, "viaBatch"), Sub: class}
+			free := g.qrelComps(m.Filters[fi])
+			c := rapid.SampledFrom(free).Draw(t, "relComp")
+			op := &Op{K: "queryDeadTarget", F: fi, Mode: rapid.IntRange(0, 1).Draw(t, "viaBatch"), Sub: class}
+			for _, fc := range free {
+				if fc == c {
+					op.QRels = append(op.QRels, RelSpec{C: c, T: rapid.SampledFrom(dead).Draw(t, "deadTarget"), S: rapid.IntRange(0, 2).Draw(t, "relStyle")})
+				} else if rapid.Bool().Draw(t, "otherRelToo") {
+					// further relations with valid targets: the multi-relation code path
+					op.QRels = append(op.QRels, RelSpec{C: fc, T: g.pickTarget(t), S: rapid.IntRange(0, 2).Draw(t, "relStyle")})
+				}
+			}
 			return op
 		}
 		class = "stale"
@@ -480,10 +489,14 @@ func (g *Gen) qrelComps(f *FilterSpec) []int {
 // leave the world locked.
 func (it *Interp) opQueryDeadTarget(op *Op) {
 	f := it.M.Filters[op.F]
+	anyDead := false
 	for _, r := range op.QRels {
-		if it.M.targetOK(r.T) {
-			panic("bad op: queryDeadTarget with an alive target")
+		if !it.M.targetOK(r.T) {
+			anyDead = true
 		}
+	}
+	if !anyDead {
+		panic("bad op: queryDeadTarget without a dead target")
 	}
 	it.run(op, false, func(b *Backend) {
 		if op.Mode == 1 {
